@@ -72,6 +72,9 @@ HDR_FREE = ('aggregate', 'antijoin', 'complement', 'conflicts', 'crossjoin',
             'tail', 'unique', 'unjoin')
 HDR_FREE = tuple(n for n in HDR_FREE if n in NONSTREAM_NAMES)
 HDR_CTOR_STACKABLE = [n for n in STACKABLE if RECIPES[n].hdr_ctor]
+# views with a build side that they read only after their header went out
+HDR_FREE_BUILD = ('hashantijoin', 'hashcomplement', 'hashintersection',
+                  'presorted-merge-short', 'selectin-lazy')
 BYTE_NAMES = ['fromcsv', 'fromtsv', 'frompickle', 'fromtext',
               'fromjson-lines']
 CONSUMERS = ['next', 'next', 'next', 'islice', 'head', 'look', 'lookstr',
@@ -466,7 +469,10 @@ def _one_length(e, case, total, log, sb, poison):
                 below += st[1]
             for i in range(rec.nsrc):
                 if i in rec.build:
-                    hdr_budget[i] += len(tables[i])
+                    # (these read their build side when the first data row
+                    # is asked for, after the header: declared, see HDR_FREE)
+                    if stack[0][0] not in HDR_FREE_BUILD:
+                        hdr_budget[i] += len(tables[i])
                 else:
                     hdr_budget[i] += below
     w, views = build(e, stack, None, tempdir=sb.path, tables=tables,
